@@ -225,7 +225,13 @@ def run_harness(prop, tier, seed, extra=None, timeout=3000):
             st = json.load(open(stats))
         except Exception:
             st = None
-    return {"rc": rc, "out": out[-6000:], "s": round(dt, 1), "cases": cases, "stats": st}
+    keep = out[-6000:]
+    for mark in ("panic:", "fatal error:"):      # keep the head of a crash report, not the tail of its goroutine dump
+        i = out.find(mark)
+        if i >= 0 and rc != 0:
+            keep = out[max(0, i - 500):i + 5500]
+            break
+    return {"rc": rc, "out": keep, "s": round(dt, 1), "cases": cases, "stats": st}
 
 
 def run_model(cases, timeout=3000):
